@@ -467,6 +467,13 @@ func (e *Evaluator) evalDumpStmt(node *ast.DumpStmt, env *object.Env) object.Obj
 
 	for _, arg := range node.Arguments {
 		val := e.Eval(arg, env)
+
+		// a failing argument fails the render like everywhere else,
+		// instead of printing the error (with its file path) into the page
+		if isError(val) {
+			return val
+		}
+
 		values = append(values, val.Dump(0))
 	}
 
